@@ -32,20 +32,6 @@ theorem gen_msu (expf : Rat → Rat) (n : Nat) (h : n < 2 ^ 64) :
     BBGen.min_safe_uint expf (PV.int n) = PV.dtype (some (minSafe n)) := by
   rw [gen_min_safe_uint, minSafe?_eq_some n h]
 
-theorem wrap_add_wrap (w : W) (x y : Nat) : wrap w (wrap w x + y) = wrap w (x + y) := by
-  cases w <;> simp [wrap, W.bits, Nat.add_mod]
-
-theorem addLs_eq_zipWith (a b : List Nat) (h : a.length = b.length) :
-    addLs a b = List.zipWith (· + ·) a b := by
-  induction a generalizing b with
-  | nil => cases b <;> simp_all [addLs]
-  | cons x a ih =>
-    cases b with
-    | nil => simp at h
-    | cons y b =>
-      simp only [addLs, List.zipWith_cons_cons, List.cons.injEq, true_and]
-      exact ih b (by simpa using h)
-
 /-- a cluster the tree holds: sums bounded by the count, the count fits its counter -/
 structure CluOk (c : Clu) : Prop where
   le : ∀ k ∈ c.ls, k ≤ c.n
@@ -78,36 +64,6 @@ theorem gen_replace (expf : Rat → Rat) (c : Clu) (cent child ids : PV) (n : Na
     simp only [PV.setLast, hne, if_false, hfit, and_self, if_true, List.dropLast_concat, Int.toNat_natCast]
   simp only [h1, h2, h3, gen_centroid_packed expf w' ls n hk hn]
 
-
-theorem zipWith_wrap_add (w : W) (a b : List Nat) (h : a.length = b.length) :
-    List.zipWith (fun x y => wrap w (x + y)) (a.map (wrap w)) b = (addLs a b).map (wrap w) := by
-  rw [addLs_eq_zipWith a b h]
-  induction a generalizing b with
-  | nil => cases b <;> simp
-  | cons x a ih =>
-    cases b with
-    | nil => simp at h
-    | cons y b =>
-      simp only [List.map_cons, List.zipWith_cons_cons, List.cons.injEq]
-      exact ⟨wrap_add_wrap w x y, ih b (by simpa using h)⟩
-
-theorem addLs_le (a b : List Nat) (h : a.length = b.length) (n m : Nat) (ha : ∀ k ∈ a, k ≤ n) (hb : ∀ k ∈ b, k ≤ m) :
-    ∀ k ∈ addLs a b, k ≤ n + m := by
-  induction a generalizing b with
-  | nil => cases b <;> simp_all [addLs]
-  | cons x a ih =>
-    cases b with
-    | nil => simp at h
-    | cons y b =>
-      intro k hk
-      simp only [addLs, List.mem_cons] at hk
-      rcases hk with rfl | hk
-      · have := ha x (List.mem_cons_self); have := hb y (List.mem_cons_self); omega
-      · exact ih b (by simpa using h) (fun k hk => ha k (List.mem_cons_of_mem _ hk))
-          (fun k hk => hb k (List.mem_cons_of_mem _ hk)) k hk
-
-theorem addLs_length_eq (a b : List Nat) (h : a.length = b.length) : (addLs a b).length = a.length := by
-  rw [addLs_eq_zipWith a b h]; simp [h]
 
 /-- the sums of the merged / updated cluster are not changed by the wrap-around of the new width -/
 theorem merged_ls_eq (c s : Clu) (hc : CluOk c) (hs : CluOk s) (hlen : c.ls.length = s.ls.length) :
@@ -183,9 +139,11 @@ theorem gen_merge_subcluster (expf : Rat → Rat) (m : MergeFn) (thr : Rat) (c s
   unfold BBGen._BFSubcluster_merge_subcluster
   have hn64 : c.n + s.n < 2 ^ 64 := by omega
   have hcast : ((c.n : Int) + (s.n : Int)) = ((c.n + s.n : Nat) : Int) := by push_cast; ring
+  -- (also when the source writes the sum the other way round)
+  have hcast' : ((s.n : Int) + (c.n : Int)) = ((c.n + s.n : Nat) : Int) := by push_cast; ring
   have hmls := mergedSummary_ls c s hc hs hlen
   have hmn : (c.mergedSummary s).n = c.n + s.n := rfl
-  simp only [gen_n_samples, gen_linear_sum, add_int_int, hcast]
+  simp only [gen_n_samples, gen_linear_sum, add_int_int, hcast, hcast']
   have hnew_ls : PV.npAddD (PV.arr c.w c.ls) (PV.arr s.w s.ls) (BBGen.min_safe_uint expf (PV.int ((c.n + s.n : Nat))))
       = PV.arr (minSafe (c.n + s.n)) (c.mergedSummary s).ls := by
     rw [gen_msu expf _ hn64]
